@@ -43,7 +43,7 @@ func fmtSprintfSem(c *Ctx, tags map[string]bool) *fmtSemResult {
 	}
 	isValue := func(t types.Type) bool { return types.Identical(t, valueT) }
 	run := func(tag byte, nArgs int) []soutcome {
-		e := &sengine{pkg: ipkg}
+		e := &sengine{pkg: ipkg, ctx: c}
 		argArr := make([]iv, nArgs)
 		for i := range argArr {
 			argArr[i] = ivSym("arg")
